@@ -47,6 +47,10 @@ type spec struct {
 	Closes []int `json:"closes_after,omitempty"`
 	// also run the `vegeta report` command on a results file holding the data set
 	CLI bool `json:"cli,omitempty"`
+	// the results are handed to `vegeta report` in several files: consecutive chunks of these lengths, the rest
+	// in a last file; SplitRev passes the files in the opposite argument order
+	Split    []int `json:"split_files,omitempty"`
+	SplitRev bool  `json:"split_args_reversed,omitempty"`
 	// periodic: the latency's mode depends on the position modulo Period (endpoints attacked round robin)
 	Period int `json:"period,omitempty"`
 	// a few records in the middle of the results file carry large bodies (40..200 KiB): their JSON lines
@@ -278,7 +282,24 @@ func genSpec(r *kit.Rng, maxN int) spec {
 			sp.Order = "sorted" // ascending latencies: a cut-short file shifts every percentile
 		}
 	}
-	if sp.Dist == "zeromix" && !sp.BigBodies && r.Chance(0.7) {
+	if sp.CLI && sp.N >= 60 && r.Chance(0.4) {
+		// two to four result files of very different lengths
+		switch r.Pick(4) {
+		case 0:
+			sp.Split = []int{sp.N / 100 + 1}
+		case 1:
+			sp.Split = []int{3, 3}
+		case 2:
+			sp.Split = []int{sp.N - sp.N/100 - 1} // the long file first, a short tail file
+		default:
+			sp.Split = []int{2, sp.N / 50 + 1, 5}
+		}
+		sp.SplitRev = r.Chance(0.5)
+		if r.Chance(0.6) {
+			sp.Order = "sorted"
+		}
+	}
+	if sp.Dist == "zeromix" && !sp.BigBodies && len(sp.Split) == 0 && r.Chance(0.7) {
 		sp.Order = "random" // keep the zeros interleaved with / following the non-zero values
 	}
 	if r.Chance(0.3) {
@@ -939,6 +960,14 @@ func runC11(c *run.Ctx, s *kit.Summary) {
 			periodic = append(periodic, spec{Dist: "periodic", N: []int{70000, 100000}[r.Pick(2)], Order: []string{"random", "random", "shuffled"}[r.Pick(3)],
 				Seed: r.Int63(), Period: []int{2, 4}[r.Pick(2)], CLI: r.Chance(0.3), Closes: []int{1 + r.Pick(60000)}})
 		}
+	}
+	// the report command over a short and a long results file, both argument orders
+	for _, sp := range []spec{
+		{Dist: "lognormal", N: 5050, Order: "sorted", Seed: 21, CLI: true, Split: []int{50}},
+		{Dist: "uniform", N: 4006, Order: "sorted", Seed: 22, CLI: true, Split: []int{3, 3}, SplitRev: true},
+		{Dist: "bimodal", N: 3000, Order: "sorted", Seed: 23, Frac: 0.7, CLI: true, Split: []int{2950}},
+	} {
+		k.check(sp, "f")
 	}
 	for _, sp := range periodic {
 		s.Count(fmt.Sprintf("periodic:n=%d period=%d order=%s cli=%v", sp.N, sp.Period, sp.Order, sp.CLI))
